@@ -4,6 +4,7 @@
 package bbr
 
 import (
+	"strconv"
 	"time"
 
 	"github.com/apernet/quic-go/congestion"
@@ -19,7 +20,18 @@ import (
 // offset is explored.
 //
 //verif:model math/rand.Int31n
-func zzModelInt31n(n int32) int32 { return int32(verifChoice("gainCycleOffsetDraw", 7)) % n }
+func zzModelInt31n(n int32) int32 {
+	if !zzGainDrawn {
+		zzGainDrawn = true
+		zzGainDraw = int32(verifChoice("gainCycleOffsetDraw", 7))
+	}
+	return zzGainDraw % n // every offset once; re-entries of PROBE_BW on the same path draw the same
+}
+
+var (
+	zzGainDrawn bool
+	zzGainDraw  int32
+)
 
 type zzPkt struct {
 	pn   congestion.PacketNumber
@@ -184,6 +196,8 @@ func (q *zzQuic) prefix(which int) {
 		}
 		q.advance(11 * time.Second)
 		q.simulate(24, perRTT, rtt, true)
+	case 6: // a slow path (one packet per 100 ms): the measured rate is below the pacer's floor
+		q.simulate(520, 1, 100*time.Millisecond, true)
 	case 5: // a loss at full flight: recovery (CONSERVATION, then GROWTH after a round)
 		q.simulate(400, perRTT, rtt, true)
 		q.due = q.due[4:]
@@ -230,14 +244,14 @@ func (q *zzQuic) symbolicEvent(i int) {
 // outputs sane and never panics. The starting points are produced by driving
 // the real sender concretely, so every state explored is reachable.
 //
-//verif:harness kind=api replay=interp fp=abstract mode=int nomodel=bdpFromRttAndBandwidth unwind=400 preempt=0 bound=6-concrete-prefixes,every-gain-cycle-offset,standard(quick)/3-profiles(thorough),symbolic-suffix=1(quick)/2(thorough)-events,sizes<=mds,delays<=2s,gaps<=2
+//verif:harness kind=api replay=interp fp=abstract mode=int nomodel=bdpFromRttAndBandwidth unwind=400 preempt=0 bound=7-concrete-prefixes,every-gain-cycle-offset,standard(quick)/3-profiles(thorough),symbolic-suffix=1(quick)/2(thorough)-events,sizes<=mds,delays<=2s,gaps<=2
 func ZZ_C12_EventsFromReachableStates() {
 	prof := ProfileStandard
 	if verifThorough() {
 		prof = zzProfiles[verifChoice("profile", 3)]
 	}
 	q := zzNewQuic(prof)
-	q.prefix(verifChoice("prefix", 6))
+	q.prefix(verifChoice("prefix", 7))
 	// which starting points were actually reached (vacuity guard)
 	if q.b.isAtFullBandwidth {
 		verifCover("past-startup")
@@ -250,6 +264,9 @@ func ZZ_C12_EventsFromReachableStates() {
 	}
 	if q.b.mode == bbrModeProbeBw {
 		verifCover("probe-bw")
+	}
+	if q.b.pacingRate != 0 && q.b.pacingRate < Bandwidth(8*minBps) {
+		verifCover("rate-below-floor")
 	}
 	n := 1
 	if verifThorough() {
@@ -264,7 +281,8 @@ func ZZ_C12_EventsFromReachableStates() {
 //verif:harness kind=api fp=abstract mode=int nomodel=bdpFromRttAndBandwidth unwind=400 preempt=0 tier=debug
 func ZZ_C12_DebugPrefix() {
 	q := zzNewQuic(ProfileStandard)
-	q.prefix(verifChoice("prefix", 6))
+	q.prefix(6)
+	verifCover("dbg rate="+strconv.Itoa(int(q.b.pacingRate))+" rounds="+strconv.Itoa(int(q.b.roundTripCount))+" nogain="+strconv.Itoa(int(q.b.roundsWithoutBandwidthGain))+" applim="+strconv.FormatBool(q.b.lastSampleIsAppLimited)+" bw="+strconv.Itoa(int(q.b.bandwidthEstimate()))+" out="+strconv.Itoa(len(q.out))+" cwnd="+strconv.Itoa(int(q.b.GetCongestionWindow())))
 	verifObserveInt("mode", int64(q.b.mode))
 	verifObserveInt("full", int64(q.b.roundsWithoutBandwidthGain))
 	verifObserveInt("recovery", int64(q.b.recoveryState))
